@@ -366,6 +366,12 @@ var topRules = []topRule{
 	{name: "match-arms-after-two-none-arms", good: "fn f(c: int) -> ?int { match c { 0 => none, 1 => none, 2 => ?1, _ => ?2 } }\nfn main() { println(f(1)); }\n", bad: "fn f(c: int) -> ?int { match c { 0 => none, 1 => none, 2 => ?1, _ => ?true } }\nfn main() { println(f(1)); }\n"},
 	{name: "match-let-after-none-arm", good: "fn main() { let v = match 1 { 0 => none, 1 => ?1, _ => ?2 }; println(v); }\n", bad: "fn main() { let v = match 1 { 0 => none, 1 => ?1, _ => ?[1] }; println(v); }\n"},
 	{name: "if-branches-after-none-branch", good: "fn f(c: int) -> ?int { if c == 0 { none } else if c == 1 { ?1 } else { ?2 } }\nfn main() { println(f(1)); }\n", bad: "fn f(c: int) -> ?int { if c == 0 { none } else if c == 1 { ?1 } else { ?\"s\" } }\nfn main() { println(f(1)); }\n"},
+	// ... and a bare `none` in the LAST branch (which gives an if / try expression its type) must not widen the other branch
+	{name: "if-none-else-branch-result", good: "fn f(c: bool) -> ?int { if c { ?1 } else { none } }\nfn main() { println(f(true)); }\n", bad: "fn f(c: bool) -> ?str { if c { ?1 } else { none } }\nfn main() { println(f(true)); }\n"},
+	{name: "if-none-else-branch-let", good: "fn main() { let c = true; let v: ?int = if c { ?1 } else { none }; println(v); }\n", bad: "fn main() { let c = true; let v = if c { ?1 } else { none }; let w: ?str = v; println(w); }\n"},
+	{name: "if-none-last-of-three-branches", good: "fn f(c: int) -> ?int { if c == 0 { ?1 } else if c == 1 { ?2 } else { none } }\nfn main() { println(f(1)); }\n", bad: "fn f(c: int) -> ?[int] { if c == 0 { ?1 } else if c == 1 { ?2 } else { none } }\nfn main() { println(f(1)); }\n"},
+	{name: "try-none-body-result", good: "fn f(c: bool) -> ?int { try { if c { throw(\"x\"); } none } catch e { ?1 } }\nfn main() { println(f(true)); }\n", bad: "fn f(c: bool) -> ?str { try { if c { throw(\"x\"); } none } catch e { ?1 } }\nfn main() { println(f(true)); }\n"},
+	{name: "try-none-handler-result", good: "fn f(c: bool) -> ?int { try { if c { throw(\"x\"); } ?1 } catch e { none } }\nfn main() { println(f(true)); }\n", bad: "fn f(c: bool) -> ?str { try { if c { throw(\"x\"); } ?1 } catch e { none } }\nfn main() { println(f(true)); }\n"},
 	{name: "if-let-after-none-branch", good: "fn main() { let c = 1; let v = if c == 0 { none } else if c == 1 { ?1 } else { ?2 }; println(v); }\n", bad: "fn main() { let c = 1; let v = if c == 0 { none } else if c == 1 { ?1 } else { ?\"s\" }; println(v); }\n"},
 	{name: "if-none-in-the-middle", good: "fn main() { let c = 1; let v = if c == 0 { ?1 } else if c == 1 { none } else { ?2 }; println(v); }\n", bad: "fn main() { let c = 1; let v = if c == 0 { ?1 } else if c == 1 { none } else { ?\"s\" }; println(v); }\n"},
 	{name: "match-none-in-the-middle", good: "fn main() { let v = match 1 { 0 => ?1, 1 => none, _ => ?2 }; println(v); }\n", bad: "fn main() { let v = match 1 { 0 => ?1, 1 => none, _ => ?\"s\" }; println(v); }\n"},
